@@ -35,6 +35,7 @@ func (s *State) cloneThreads(c *State) {
 		c.threads = append(c.threads, nt)
 	}
 	c.curTID, c.nextTID, c.stalled = s.curTID, s.nextTID, s.stalled
+	c.settling, c.settled = s.settling, s.settled
 	c.timers = append([]timerRec(nil), s.timers...)
 	c.vtime = s.vtime
 }
@@ -57,6 +58,21 @@ func (e *Engine) block(st *State, f *Frame) {
 	f.ip--
 	st.stalled++
 	if st.stalled > len(st.threads)+1 {
+		if st.settling {
+			// vSettle: every other goroutine has run until it blocked; resume the harness entry
+			st.settling, st.settled, st.stalled = false, true, 0
+			if st.curTID != 0 {
+				st.threads = append(st.threads, &thread{id: st.curTID, frames: st.frames})
+				for i, t := range st.threads {
+					if t.id == 0 {
+						st.curTID, st.frames = 0, t.frames
+						st.threads = append(st.threads[:i:i], st.threads[i+1:]...)
+						break
+					}
+				}
+			}
+			return
+		}
 		if e.fireTimer(st) {
 			st.stalled = 0
 			return
@@ -71,6 +87,20 @@ func (e *Engine) block(st *State, f *Frame) {
 	nx := st.threads[0]
 	st.threads = st.threads[1:]
 	st.curTID, st.frames = nx.id, nx.frames
+}
+
+// settle implements the harness intrinsic vSettle(): the harness entry waits until every other
+// goroutine has run as far as it can without the clock advancing (natively: a short sleep).
+func (e *Engine) settle(st *State, f *Frame) {
+	if st.settled {
+		st.settled = false
+		return
+	}
+	if len(st.threads) == 0 {
+		return
+	}
+	st.settling = true
+	e.block(st, f)
 }
 
 // threadExit: the current (non-main) thread returned from its top function.
